@@ -391,6 +391,34 @@ func Run(in Input) (c *common.Case) {
 	}
 	binSys := runBin(append([]string{"-list", "system"}, args...)...)
 	binStage := runBin(append([]string{"-list", "stage"}, args...)...)
+	// the same tree once more, directories created in the reverse order on a tmpfs (where readdir
+	// follows the creation order): another enumeration order for the same database
+	binStage2 := binStage
+	if tmp2, err := os.MkdirTemp("/dev/shm", "lcv-c05-"); err == nil {
+		root2 := filepath.Join(tmp2, "r")
+		in2 := in
+		in2.Order = make([]int, len(in.Order))
+		for i, v := range in.Order {
+			in2.Order[len(in.Order)-1-i] = v
+		}
+		if len(in.Order) != len(in.Pkgs) {
+			in2.Order = nil
+		}
+		if err := build(root2, &in2); err == nil {
+			args2 := []string{"-list", "stage", "-root", root2}
+			if len(in.ProfileArg) > 0 {
+				args2 = append(args2, "-profile", path.Join(root2, string(in.ProfileArg)))
+			}
+			if len(atoms) > 0 {
+				args2 = append(args2, "-atoms", strings.Join(atoms, " "))
+			}
+			if in.NoBdeps {
+				args2 = append(args2, "-nobdeps")
+			}
+			binStage2 = runBin(args2...)
+		}
+		os.RemoveAll(tmp2)
+	}
 
 	// ---- oracles: a pristine installed set, the enumeration order, parse trees, match relation
 	pristine, perr := vdb.GetInstalledPackageList(root)
@@ -546,10 +574,10 @@ func Run(in Input) (c *common.Case) {
 		fsTerms[i] = q.Pair(q.Hx(p), q.App("PDir", pk, pa))
 	}
 
-	obsTerm := q.App("C05.MkObs", resTerm(sysRes), resTerm(stageRes), resTerm(binSys), resTerm(binStage))
+	obsTerm := q.App("C05.MkObs", resTerm(sysRes), resTerm(stageRes), resTerm(binSys), resTerm(binStage), resTerm(binStage2))
 	c.Coq = q.App("C05.MkCase", q.Hx(root), q.List(fsTerms), q.Hx(profileDir), q.List(dict), q.HxList(atoms),
 		q.List(pkgTerms), q.List(enum), q.Bool(!in.NoBdeps), q.Bool(complete), obsTerm)
-	desc["obs"] = map[string]interface{}{"system": sysRes, "stage": stageRes, "bin_system": binSys, "bin_stage": binStage}
+	desc["obs"] = map[string]interface{}{"system": sysRes, "stage": stageRes, "bin_system": binSys, "bin_stage": binStage, "bin_stage_reordered": binStage2}
 
 	// distinctness key: the input without the temporary directory
 	kb, _ := json.Marshal(in)
